@@ -140,6 +140,9 @@ pub struct History {
     pub out_after_write: Vec<usize>,
     /// accounted usage (hook) after each successful write() return
     pub usage_after_write: Vec<usize>,
+    /// net heap bytes allocated by the driving thread (counting allocator) after each
+    /// successful write() return
+    pub live_after_write: Vec<isize>,
     pub outcome: Outcome,
     pub invocations: usize,
     /// accounted usage after every limiter charge (hook), when requested
